@@ -295,6 +295,37 @@ def make_batch(rng, n, tag, cls=TableAction, nactions=None):
     return [(actions[owner[k]], cev(evs[k])) for k in range(n)]
 
 
+def wrap_some_in_multi(rng, batch, p=0.4, force_first=True):
+    """some of the batch's actions handed over inside a BoboActionMultiSequential (the action twice, or with a companion
+    that always succeeds): whatever the handler does with an action object -- copy, pickle, name, time -- it does with
+    composite ones too.  The wrapper carries the expected outcome per event in `.table` like the plain ones."""
+    wrapped = {}
+    out = []
+    for a, e in batch:
+        if id(a) not in wrapped:
+            if rng.random() < p or (force_first and not wrapped):
+                stop = rng.random() < 0.5
+                subs = [a, a] if rng.random() < 0.5 else [a, TableAction(a.name + '_ok', {}, {})]
+                m = BoboActionMultiSequential('M' + a.name, subs, stop)
+                m.table, m.delays = {}, a.delays
+                wrapped[id(a)] = (m, subs, stop)
+            else:
+                wrapped[id(a)] = None
+        w = wrapped[id(a)]
+        if w is None:
+            out.append((a, e))
+            continue
+        m, subs, stop = w
+        first = a.table[e.event_id]
+        if subs[1] is not a:
+            subs[1].table[e.event_id] = (True, 'ok')
+        second = subs[1].table[e.event_id]
+        outs = [first] if (stop and not first[0]) else [first, second]
+        m.table[e.event_id] = (all(o[0] for o in outs), outs)
+        out.append((m, e))
+    return out
+
+
 def blocking_cases(res, rng, lines, impl_out, count, tag0):
     for b in range(count):
         n = rng.randint(1, 10)
@@ -549,6 +580,7 @@ def pool_free_running(res, rng, make_handler, name, workers, n, tag, same_object
     batch = make_batch(rng, n, tag)
     for a, e in batch:
         a.delays[e.event_id] = rng.choice([0, 0, 0.001, 0.003, 0.006])
+    batch = wrap_some_in_multi(rng, batch)
     h = make_handler(workers)
     got = []
     try:
